@@ -324,7 +324,7 @@ class CtxLTS(object):
             if name in ("std::iter::Iterator::next", "<I as std::iter::Iterator>::next") and \
                     c.args and c.args[0][0] == "ref" and c.args[0][2] == () and c.args[0][1] in cursors:
                 raise Cut(("read", c.site, c.dest, c.target))
-            if name == exp.prefix + "_BINARY_SEARCH" and tables_ok:
+            if exp.kind(name)[0] == "bsearch" and tables_ok:
                 x, tb = c.args[0], c.args[1]
                 if x[0] == "char" and tb[0] == "ref" and tb[1][0] == "static" and \
                         tb[1][1] in exp.statics:
